@@ -261,7 +261,7 @@ class VttContext:
       if paragraph.get_end() is None:
         # set default end time code
         LOGGER.warning("Set a default end value to paragraph (begin + 10s).")
-        paragraph.set_end(paragraph.get_begin().to_seconds() + 10)
+        paragraph.set_end(paragraph.get_begin().to_temporal_offset() + 10)
 
   def style_block(self):
     """Generated CSS INLINE STYLE Block"""
